@@ -368,6 +368,43 @@ def build_cases(chk, table=()):
             tri = names[i:i + 3]
             tri = tri[rot:] + tri[:rot]
             add("pos_crates3_%d_%d" % (i, rot), {"main.incn": "".join("import rust::%s\n" % n for n in tri) + "\n" + MAIN_PLAIN}, crates=tri)
+    # ---- lattice: the ENTRY triggers a subset of {serde, async, web, crate}; dependency module k (1st/2nd/3rd, or a
+    #      nested one) triggers one (or two) features NOT in that subset
+    ENTRY = {"serde": "@derive(Serialize)\nmodel EP:\n    x: int\n\n", "async": "async def ef() -> int:\n    return 1\n\n",
+             "web": "", "crate": ""}
+    ENTRY_IMP = {"web": "from web import App\n", "crate": "import rust::regex\n", "serde": "", "async": ""}
+    DEP = {"serde": ("", "pub def show{j}(x: int) -> str:\n    return json_stringify(x)\n"), "async": ("", "pub async def slow{j}() -> int:\n    return 2\n"),
+           "web": ("from web import App\n", ""), "crate": ("from rust::rand import random\n", "")}
+    feats = ["serde", "async", "web", "crate"]
+    li = 0
+    for mask in range(16):
+        sub = [f for i, f in enumerate(feats) if mask >> i & 1]
+        rest = [f for f in feats if f not in sub]
+        combos = [(f,) for f in rest] + [(a, b_) for ai, a in enumerate(rest) for b_ in rest[ai + 1:]]
+        for combo in combos:
+            for pos in range(4):          # 0..2: flat modules m0..m2, 3: nested module pkg/inner
+                li += 1
+                if chk.tier == "quick":
+                    keep = (len(combo) == 1 and (li % 4 == pos or set(sub) >= {"serde", "async"})) or (len(combo) == 2 and li % 12 == pos)
+                    if not keep:
+                        continue
+                files = {}
+                imports, calls = "", ""
+                for j in range(3):
+                    pre = "".join(DEP[f][0] for f in combo) if j == pos else ""
+                    post = "".join(DEP[f][1].format(j=j) for f in combo) if j == pos else ""
+                    files["m%d.incn" % j] = pre + "\npub def f%d() -> int:\n    return %d\n" % (j, j) + post
+                    imports += "from m%d import f%d\n" % (j, j)
+                pre = "".join(DEP[f][0] for f in combo) if pos == 3 else ""
+                post = "".join(DEP[f][1].format(j=9) for f in combo) if pos == 3 else ""
+                files["pkg/inner.incn"] = pre + "\npub def g() -> int:\n    return 7\n" + post
+                imports += "from pkg.inner import g\n"
+                # reverse import order for odd cases (the CLI loads imports through a stack)
+                if li % 2:
+                    imports = "\n".join(reversed(imports.strip().split("\n"))) + "\n"
+                files["main.incn"] = "".join(ENTRY_IMP[f] for f in sub) + imports + "\n" + "".join(ENTRY[f] for f in sub) + \
+                    "def main() -> None:\n    println(f0() + f1() + f2() + g())\n"
+                add("lat_%s__%s_%d" % ("+".join(sub) or "none", "+".join(combo), pos), files)
     # the feature sits in the 1st / 2nd / 3rd of three imported modules (state carried across modules)
     for pos in range(3):
         for feat, body in (("serde", "pub def show(x: int) -> str:\n    return json_stringify(x)\n"), ("async", "pub async def slow() -> int:\n    return 2\n"),
@@ -615,6 +652,12 @@ def run(chk):
                         continue
                     fails.append({"case": c["name"], "files": c["files"], "why": "generated Rust refers to crate `%s` but Cargo.toml does not declare it" % r,
                                   "expected": "dependency on " + r, "actual": declared})
+            # (1a) feature-gated incan_stdlib modules referenced by the generated Rust need the feature
+            std_spec = dict(deps).get("incan_stdlib", "")
+            for mod_, feat_ in (("web", '"web"'), ("json", '"json"')):
+                if mod_ in b.get("stdlib_mods", []) and feat_ not in std_spec:
+                    fails.append({"case": c["name"], "files": c["files"], "why": "generated Rust refers to incan_stdlib::%s but Cargo.toml declares incan_stdlib without feature %s" % (mod_, feat_),
+                                  "expected": "incan_stdlib features containing " + feat_, "actual": std_spec})
             # (1b) every `rust::` import of every module is declared, exactly once
             for m in [ms] + list(ds):
                 if not m["ok"]:
